@@ -252,7 +252,12 @@ def execute(case):
                 found = ("ok", margs(mw)[0], margs(mw)[2], sh)
                 break
         if found is None:
-            raise env.HarnessError("no block found in 60000 nonces")
+            # the history drove the difficulty so high that 60,000 attempts do not find a block: nothing to judge in this case
+            info["found"] = 0
+            info["unminable"] = 1
+            info.setdefault("pool", len(pool))
+            info.setdefault("boundary", False)
+            return fails, info
         info["found"] = 1
         summary, txs = found[1], found[2]
         ev = C.construct_pow_evidence_after_scrypt(found[3], state_before, summary, summary.height, txs)
@@ -494,6 +499,7 @@ def run(shard, tier, seed):
             return
         res.evaluations += 1
         res.count("finds", info["found"])
+        res.count("cases_without_a_find_in_60000_attempts", info.get("unminable", 0))
         res.count("finds_with_pool", 1 if info["pool"] else 0)
         res.count("finds_at_retarget_boundary", 1 if info["boundary"] else 0)
         res.count("finds_assembly_clock_not_after_head", 1 if info["early_clock"] else 0)
@@ -502,7 +508,7 @@ def run(shard, tier, seed):
         res.count("c08_f1_seen(not judged)", info.get("c08_f1_seen", 0))
         res.count("net_flush_races", info.get("net_flush_races", 0))
         res.count("net_flush_failures_before_the_find", info.get("net_flush_failures", 0))
-        if info["pool"] or info["early_clock"] or info["boundary"]:
+        if info["found"] and (info["pool"] or info["early_clock"] or info["boundary"]):
             res.nontrivial(env.digest(case))
         if res.evaluations in (1, 9):
             res.sample({k: case[k] for k in ("cfg", "asm_off", "found_delay", "n_pool", "fee_sel")} | {"n_ops": len(case["ops"]), "deep": bool(deepd)})
